@@ -158,9 +158,11 @@ func (p Params[T]) Config(ctx context.Context, t *T, sources ...Source) (*Dials[
 		// the time.
 		cbch := make(chan userCallbackEvent, 64)
 		d.cbch = cbch
+		d.monDone = make(chan struct{})
 		cbmgr := callbackMgr[T]{
-			p:  &p,
-			ch: cbch,
+			p:    &p,
+			ch:   cbch,
+			done: d.monDone,
 		}
 		go cbmgr.runCBs(ctx)
 
@@ -385,6 +387,10 @@ func (u *userCallbackUnregisterToken[T]) unregister(ctx context.Context) bool {
 	select {
 	case <-ctx.Done():
 		return false
+	case <-u.d.monDone:
+		// the callback goroutine is shutting down; it may never get to
+		// this event.
+		return false
 	case <-doneCh:
 		return true
 	}
@@ -521,7 +527,15 @@ func (d *Dials[T]) submitEventBlocking(ctx context.Context, ev userCallbackEvent
 		return false
 	}
 	select {
+	case <-d.monDone:
+		// the monitor has exited, so nothing will run callbacks any more
+		return false
+	default:
+	}
+	select {
 	case <-ctx.Done():
+		return false
+	case <-d.monDone:
 		return false
 	case d.cbch <- ev:
 		return true
@@ -632,7 +646,10 @@ func (d *Dials[T]) monitor(
 	watcherChan chan watchStatusUpdate,
 	monCtl <-chan verifyEnable[T],
 ) {
-	defer close(d.cbch)
+	// Tell the callback goroutine (and anyone trying to submit events to
+	// it) that we're gone. cbch itself is never closed, since API callers
+	// may still try to send on it.
+	defer close(d.monDone)
 	skipVerify := d.params.DelayInitialVerification
 	for {
 		select {
